@@ -25,6 +25,13 @@ pub struct BigSpec {
     pub payload_len: u32,
     /// bytes removed from the end
     pub cut: u32,
+    /// how many of the further options share one number (0 = all of them)
+    #[serde(default = "two")]
+    pub per_number: u32,
+}
+
+fn two() -> u32 {
+    2
 }
 
 impl BigSpec {
@@ -53,7 +60,7 @@ impl BigSpec {
         }
         let base = m.options.last().map(|o| o.0).unwrap_or(0);
         for i in 0..self.options {
-            let num = (base as u32 + i / 2).min(65535) as u16;
+            let num = (base as u32 + if self.per_number == 0 { 0 } else { i / self.per_number }).min(65535) as u16;
             m.options.push((num, pattern(self.opt_len as usize, i as u8)));
         }
         let mut b = m.encode().expect("reference encoder");
@@ -547,30 +554,42 @@ pub fn run(ctx: &Ctx, rep: &mut Report, which: Which) {
     plens.extend([0, 1, 2000, 4096, 20000, 63980, 63990, 63995, 63996, 63997, 63998, 63999, 64000, 64001, 64002, 64005, 65534, 65535, 65536, 65537, 70000, 131072, 200000]);
     for &payload_len in &plens {
         for shape in 0..4u8 {
-            big.push(BigSpec { shape, options: 0, opt_len: 0, payload_len, cut: 0 });
+            big.push(BigSpec { shape, options: 0, opt_len: 0, payload_len, cut: 0, per_number: 2 });
         }
     }
     for (options, opt_len) in [(5u32, 255u32), (5, 256), (100, 12), (100, 13), (110, 300), (250, 268), (250, 269), (1300, 0), (1300, 1), (64010, 0), (3, 65535), (2, 40000), (1, 65804), (1, 65803)] {
         for payload_len in [0u32, 1, 1280, 64000] {
             for shape in [0u8, 2] {
-                big.push(BigSpec { shape, options, opt_len, payload_len, cut: 0 });
+                big.push(BigSpec { shape, options, opt_len, payload_len, cut: 0, per_number: 2 });
             }
         }
         // truncated inside the last option value / the payload
-        big.push(BigSpec { shape: 1, options, opt_len, payload_len: 0, cut: 1 });
-        big.push(BigSpec { shape: 1, options, opt_len, payload_len: 5, cut: 6 });
+        big.push(BigSpec { shape: 1, options, opt_len, payload_len: 0, cut: 1, per_number: 2 });
+        big.push(BigSpec { shape: 1, options, opt_len, payload_len: 5, cut: 6, per_number: 2 });
+    }
+    // one option number repeated many times (the per-number value list)
+    for options in [254u32, 255, 256, 257, 300, 1000, 5000, 65536, 70000] {
+        for (shape, opt_len, payload_len) in [(0u8, 0u32, 0u32), (2, 1, 3), (1, 2, 0)] {
+            if (options as u64) * (opt_len as u64 + 1) <= 200_000 {
+                big.push(BigSpec { shape, options, opt_len, payload_len, cut: 0, per_number: 0 });
+            }
+        }
+        big.push(BigSpec { shape: 0, options, opt_len: 0, payload_len: 0, cut: 0, per_number: 256 });
     }
     run_list(
         ctx,
         rep,
         "large-datagrams",
-        "well-formed datagrams with payloads of 0..200000 bytes (every length 1268..=1292, neighbours of 64000 and 65536) after four header/option shapes, and option sections of up to 190 KB (many options, values up to 65804 bytes) with and without payload, whole and truncated; non-trivial = longer than 1280 bytes",
+        "well-formed datagrams with payloads of 0..200000 bytes (every length 1268..=1292, neighbours of 64000 and 65536) after four header/option shapes, and option sections of up to 190 KB (many options, values up to 65804 bytes) with and without payload, whole and truncated; one option number repeated 254..70000 times; non-trivial = longer than 1280 bytes or more than 255 values of one number",
         true,
         big,
         |_ctx, c: &BigSpec, acc| {
             let b = c.bytes();
-            if b.len() > 1280 {
+            if b.len() > 1280 || (c.per_number == 0 && c.options > 255) {
                 acc.nontrivial_enum();
+            }
+            if c.per_number == 0 && c.options > 255 {
+                acc.class("one-number-more-than-255-values");
             }
             if b.len() > 64000 {
                 acc.class("datagram>64000");
